@@ -1429,12 +1429,31 @@ fn is_temperature_sugar(expr: &Expression) -> bool {
     }
 }
 
+/// `f(args)` for a call, without the temperature sugar.
+fn call_syntax(expr: &Expression) -> Markup {
+    let arguments = |args: &Vec<Expression>| {
+        m::operator("(")
+            + itertools::Itertools::intersperse(
+                args.iter().map(|e: &Expression| e.pretty_print()),
+                m::operator(",") + m::space(),
+            )
+            .sum()
+            + m::operator(")")
+    };
+    match expr {
+        Expression::FunctionCall { name, args, .. } => {
+            m::identifier(name.to_compact_string()) + arguments(args)
+        }
+        Expression::CallableCall { callable, args, .. } => with_parens(callable) + arguments(args),
+        _ => expr.pretty_print(),
+    }
+}
+
 fn with_parens(expr: &Expression) -> Markup {
     match expr {
-        // the sugar forms are a product resp. a conversion, not a call
-        _ if is_temperature_sugar(expr) => {
-            m::operator("(") + expr.pretty_print() + m::operator(")")
-        }
+        // the sugar forms are a product resp. a conversion, not a call; as an operand the
+        // call is written out (`-(5 °C)` is read as `(-5) °C`, so parens would not help)
+        _ if is_temperature_sugar(expr) => call_syntax(expr),
         // a negative literal only arises from a unicode exponent like ⁻¹
         Expression::Scalar { value, .. } if value.to_f64() < 0.0 => {
             m::operator("(") + expr.pretty_print() + m::operator(")")
@@ -1491,7 +1510,8 @@ fn pretty_print_binop(op: &BinaryOperator, lhs: &Expression, rhs: &Expression) -
                         op: BinaryOperator::ConvertTo,
                         ..
                     }
-            ) {
+            ) || is_temperature_sugar(rhs)
+            {
                 with_parens(rhs)
             } else {
                 rhs.pretty_print()
